@@ -879,6 +879,28 @@ class PEval:
             r = self.hook(self, path, fname, [deref(a) for a in args], node)
             if r is not NotImplemented:
                 return r
+        # ---- OnceLock / OnceCell / LazyCell-like cells: a write-once place --------------------------------
+        if ("OnceLock" in path or "OnceCell" in path) and "sync::once_lock" in path or "cell::once" in path:
+            c0 = deref(args[0]) if args else None
+            if fname in ("new", "default") and not args:
+                return Struct("#Once", {"set": False, "v": UNKNOWN})
+            if isinstance(c0, Struct) and c0.adt == "#Once":
+                if fname in ("get_or_init",) and len(args) == 2:
+                    if not c0.fields["set"]:
+                        c0.fields["v"] = self.apply(args[1], [], depth + 1)
+                        c0.fields["set"] = True
+                    return c0.fields["v"]
+                if fname == "get" and len(args) == 1:
+                    return some(c0.fields["v"]) if c0.fields["set"] else NONE
+                if fname == "set" and len(args) == 2:
+                    if c0.fields["set"]:
+                        return err(args[1])
+                    c0.fields["v"], c0.fields["set"] = args[1], True
+                    return ok(UNIT)
+                if fname == "take" and len(args) == 1:
+                    v_ = some(c0.fields["v"]) if c0.fields["set"] else NONE
+                    c0.fields["set"], c0.fields["v"] = False, UNKNOWN
+                    return v_
         # tuple-variant / tuple-struct constructors used as functions (`.map(Some)`, `.map(Statement::Call)`)
         if path in ("core::option::Option::Some", "core::result::Result::Ok", "core::result::Result::Err") and len(args) == 1:
             return {"Some": some, "Ok": ok, "Err": err}[fname](deref(args[0]))
@@ -1146,6 +1168,8 @@ class PEval:
                 t = rt
             if t.startswith("core::marker::PhantomData"):
                 return UNIT
+            if t.startswith(("std::sync::once_lock::OnceLock", "core::cell::once::OnceCell")):
+                return Struct("#Once", {"set": False, "v": UNKNOWN})
             cand = self.lib.fn("<%s as core::default::Default>::default" % t)
             if cand is not None and thir.body_of(cand):
                 return self.call_fn(cand, [], depth + 1)
